@@ -3,6 +3,7 @@ walkers prune in place, no issue list is dropped, the CLI status is a pure funct
 result, sidecars are merged root->leaf with later-wins."""
 import ast
 
+from sa.callgraph import STRONG_KINDS
 from sa.dataflow import ReachingDefs, depends_on
 from sa.dom import view, mentions
 from sa.issues import check_no_dropped_issues
@@ -83,10 +84,15 @@ def run(ctx):
     io_util = prog.find_module("tools.util.io_util")
 
     # ---------------- R16.1
+    # the functions that walk, and the discovery functions (taking exclude_dirs) that are or reach one
+    direct = [f for f in prog.functions.values() if f.module is io_util
+              and any(isinstance(n, ast.Call) and (dotted(n.func) or "") == "os.walk" for n in walk_no_nested(f.node))]
     walkers = [f for f in prog.functions.values() if f.module is io_util and "exclude_dirs" in f.params()
-               and any(isinstance(n, ast.Call) and (dotted(n.func) or "") == "os.walk" for n in walk_no_nested(f.node))]
-    if len(walkers) < 2:
-        raise AnalysisError("R16 anchor: expected two os.walk walkers with exclude_dirs in io_util, found %d" % len(walkers))
+               and (f in direct or any(d in cg.reachable([f], STRONG_KINDS) for d in direct))]
+    entries = [f for f in walkers if not f.name.startswith("_")]
+    if len(entries) < 2 or not direct:
+        raise AnalysisError("R16 anchor: expected two discovery functions with exclude_dirs over os.walk in io_util, found %d "
+                            "(walking functions: %d)" % (len(entries), len(direct)))
     init = group.methods.get("__init__")
     field_of = {}
     for n in walk_no_nested(init.node):
@@ -141,7 +147,7 @@ def run(ctx):
                   "excluded directories would take part" % got, desc="file group built with the dataset's exclude_dirs")
 
     # ---------------- R16.2
-    for w in walkers:
+    for w in direct:
         ctx.saw(w)
         v = view(ctx, w)
         loops = [n for n in v.cfg.nodes if n.kind == "loop" and isinstance(n.ast.iter, ast.Call)
@@ -211,7 +217,7 @@ def run(ctx):
 
     # the walkers decide "excluded" the same way (same test on the same form of the directory name)
     shapes = {}
-    for w in walkers:
+    for w in direct:
         for comp in ast.walk(w.node):
             if isinstance(comp, ast.ListComp) and len(comp.generators) == 1 and comp.generators[0].ifs and \
                     isinstance(comp.generators[0].target, ast.Name) and mentions(comp, "exclude_dirs"):
@@ -235,7 +241,7 @@ def run(ctx):
                       "directory dictionary then differ for nested directories, and files of an excluded directory take part" % (
                           w.short, "; ".join(shapes[w]), ref_w.short, "; ".join(shapes[ref_w])),
                       desc="%s and %s apply the same exclusion test" % (w.short, ref_w.short))
-    ctx.floor("R16.2", "walkers with an exclusion comprehension", len(shapes), 2)
+    ctx.floor("R16.2", "walkers with an exclusion comprehension", len(shapes), len(direct))
 
     # ---------------- R16.3
     scope = [dataset.methods.get("validate"), group.methods.get("validate_sidecars"), group.methods.get("validate_datafiles")]
@@ -350,20 +356,28 @@ def run(ctx):
     if gs is None:
         raise AnalysisError("anchor BidsFileGroup.get_sidecars_from_path vanished")
     ctx.saw(gs)
-    rev = _reversal_ops(gs.node)
-    ctx.check(not rev, "R16.5", gs.qualname, rev[0] if rev else "no reversal", loc(gs, rev[0] if rev else gs.node),
+    # the collection may be split over private helpers of the class: the rule reads them together
+    gs_scope = [gs] + sorted((f for f in cg.reachable([gs], STRONG_KINDS) if f.cls is group and f is not gs and f.name.startswith("_")),
+                             key=lambda f: f.qualname)
+    rev_at = [(f, r) for f in gs_scope for r in _reversal_ops(f.node)]
+    rf, rev = (rev_at[0][0], [rev_at[0][1]]) if rev_at else (gs, [])
+    ctx.check(not rev, "R16.5", rf.qualname, rev[0] if rev else "no reversal", loc(rf, rev[0] if rev else rf.node),
               "the applicable-sidecar list is reversed / built front-first: shallower sidecars would override deeper ones",
               desc="no reversal or front insertion while collecting sidecars")
-    rdg = ReachingDefs(gs)
-    loops = [n for n in walk_no_nested(gs.node) if isinstance(n, (ast.For, ast.ListComp))]
     root_first = False
-    for lp in loops:
-        it = lp.iter if isinstance(lp, ast.For) else lp.generators[0].iter
-        def rootfirst(x):
-            return isinstance(x, ast.BinOp) and isinstance(x.op, ast.Add) and isinstance(x.left, ast.List) \
-                and x.left.elts and mentions(x.left.elts[0], "root_path")
-        if depends_on(rdg, it, lp, rootfirst):
-            root_first = True
+    for f in gs_scope:
+        ctx.saw(f)
+        rdg = ReachingDefs(f)
+        for lp in walk_no_nested(f.node):
+            if not isinstance(lp, (ast.For, ast.ListComp, ast.GeneratorExp)):
+                continue
+            it = lp.iter if isinstance(lp, ast.For) else lp.generators[0].iter
+
+            def rootfirst(x):
+                return isinstance(x, ast.BinOp) and isinstance(x.op, ast.Add) and isinstance(x.left, ast.List) \
+                    and x.left.elts and mentions(x.left.elts[0], "root_path")
+            if depends_on(rdg, it, lp, rootfirst):
+                root_first = True
     ctx.check(root_first, "R16.5", gs.qualname, "iteration order", loc(gs, gs.node),
               "the path components are no longer iterated starting from the dataset root",
               desc="components iterated from [root] + sub-directories")
